@@ -251,6 +251,24 @@ func ruleArgsCodec(c *Ctx, rule string) {
 				upd = append(upd, mu)
 			}
 		})
+		if len(upd) == 0 {
+			// the copy loop of one network moved into a helper: its call in resolveNetworks stands for the copy
+			for _, h := range helperFns(fn, 1) {
+				has := false
+				allInstrs(h, func(in ssa.Instruction) {
+					if mu, ok := in.(*ssa.MapUpdate); ok && pathEndsWith(mu.Map, "Args") {
+						has = true
+					}
+				})
+				if has {
+					for _, cs := range staticSites[h] {
+						if cs.Parent() == fn {
+							upd = append(upd, cs)
+						}
+					}
+				}
+			}
+		}
 		news := calls(fn, cniutilPkg+".NewNetworkInfo")
 		if len(upd) != 1 || len(news) == 0 {
 			c.ob(rule, fn, "every created NetworkInfo receives the common args", nil, false, fmt.Sprintf("expected one copy into NetworkInfo.Args in resolveNetworks (found %d) and NewNetworkInfo calls (found %d)", len(upd), len(news)))
